@@ -37,7 +37,8 @@ class Obs : public SQuIDS {
   Obs(unsigned nx, unsigned d, double ti) : SQuIDS(nx, d, 2, 0, ti) {}
   Obs(Obs&& other) : SQuIDS(std::move(static_cast<SQuIDS&>(other))), H(other.H) {}
   // (an index outside 0..nrhos-1 can only come from a defect in the library: answer with some OTHER operator rather than crash here)
-  SU_vector H0(double x, unsigned int irho) const override { return irho < H.size() ? SU_vector((4.0 * x) * H[irho]) : SU_vector((4.0 * x + 1.0 + irho) * (H[0] + H[1])); }
+  double hscale = 1;       // a change of the time unit: every energy times hscale, every time divided by it
+  SU_vector H0(double x, unsigned int irho) const override { return irho < H.size() ? SU_vector((hscale * 4.0 * x) * H[irho]) : SU_vector((4.0 * x + 1.0 + irho) * (H[0] + H[1])); }
   double perturb = 0;      // mode 2 only: a strong interaction while the refused Evolve runs
   SU_vector HI(unsigned int ix, unsigned int irho, double t) const override {
     SU_vector h(nsun);
@@ -57,9 +58,10 @@ static SU_vector vec_from_matrix(const Mat& M) {
   return v;
 }
 
-static std::unique_ptr<Obs> build(const Setup& s, const std::vector<long>& hist, int mode) {
-  double ti = 0.7 * s.v;                       // any initial time; only t - t_ini matters
+static std::unique_ptr<Obs> build(const Setup& s, const std::vector<long>& hist, int mode, double tscale = 1.0) {
+  double ti = 0.7 * s.v * tscale;              // any initial time; only t - t_ini matters
   std::unique_ptr<Obs> o(new Obs(s.nx, s.d, ti));
+  o->hscale = 1.0 / tscale;
   for (int ir = 0; ir < 2; ir++) {
     Mat Hm(s.d);
     for (int i = 0; i < s.d; i++) Hm(i, i) = (double)s.h[ir][i];
@@ -121,7 +123,7 @@ static std::unique_ptr<Obs> build(const Setup& s, const std::vector<long>& hist,
     for (size_t i = half; i < hist.size(); i++) q->Evolve(hist[i] * M_PI / 4);
     return q;
   }
-  for (long k : hist) o->Evolve(k * M_PI / 4);
+  for (long k : hist) o->Evolve(k * M_PI / 4 * tscale);
   return o;
 }
 
@@ -221,6 +223,48 @@ int main(int argc, char** argv) {
               static const char* nm[4] = {"GetExpectationValueD(generic)", "GetExpectationValueD(buf,generic)", "GetExpectationValueD(avg,generic)", "GetExpectationValueD(buf,avg,generic)"};
               for (int q2 = 0; q2 < 4; q2++) { ncmp++; if (!(std::fabs(got[q2] - ref) <= tolv)) { mismatch(nm[q2], ir, (int)k, "value", std::fabs(got[q2] - ref), tolv); break; } }
               if (fr == 0.0) { ncmp++; double nv = g->GetExpectationValue(opv, ir, (unsigned)iv); if (!(std::fabs(nv - ref) <= tolv)) mismatch("GetExpectationValue(generic t)", ir, (int)k, "value", std::fabs(nv - ref), tolv); }
+              // with a scale that IS reached: the averaging overloads are the same interpolated state against the operator evolved with the
+              // averaged table of H0(x) over the ELAPSED time t - t_ini (the vector-level PrepareEvolve), and report that table's flags
+              for (double sc : {0.37, 2.9}) {
+                SU_vector h0 = g->H0(xg, ir);
+                std::vector<double> eb(h0.GetEvolveBufferSize());
+                std::vector<bool> av1(avg.size(), false), av2(avg.size(), false), av3(avg.size(), false), av4(avg.size(), false);
+                h0.PrepareEvolve(eb.data(), dtg, sc, av1);
+                double refa = want * opv.Evolve(eb.data());
+                double ga = g->GetExpectationValueD(opv, ir, xg, bufg, sc, av2), gb = g->GetExpectationValueD(opv, ir, xg, sc, av3);
+                ncmp += 2;
+                if (!(std::fabs(ga - refa) <= tolv)) mismatch("GetExpectationValueD(buf,avg,reached-scale)", ir, (int)k, "value", std::fabs(ga - refa), tolv);
+                if (!(std::fabs(gb - refa) <= tolv)) mismatch("GetExpectationValueD(avg,reached-scale)", ir, (int)k, "value", std::fabs(gb - refa), tolv);
+                if (av2 != av1 || av3 != av1) mismatch("GetExpectationValueD(avg,reached-scale)", ir, (int)k, "flags", 1, 0);
+                if (fr == 0.0) { ncmp++; double gn = g->GetExpectationValue(opv, ir, (unsigned)iv, sc, av4);
+                  if (!(std::fabs(gn - refa) <= tolv)) mismatch("GetExpectationValue(avg,reached-scale)", ir, (int)k, "value", std::fabs(gn - refa), tolv);
+                  if (av4 != av1) mismatch("GetExpectationValue(avg,reached-scale)", ir, (int)k, "flags", 1, 0); }
+              }
+            }
+          }
+          // The time unit is the user's: with every energy multiplied by 2^k and every time divided by it (initial time, elapsed
+          // times), each phase H0 (t - t_ini) is the same number, so every query answers as before - a system written in a very
+          // small or a very large time unit is the same system (elapsed times of 1e-18 with splittings of 1e18, and the reverse).
+          for (int ku : {60, -40}) {
+            double ts = std::ldexp(1.0, -ku);
+            std::unique_ptr<Obs> g2 = build(s, hist, 0, ts);
+            g2->Evolve((0.7345 + 0.0613 * (sid % 7)) * ts);
+            std::string un = ku > 0 ? "/unit-2^-60" : "/unit-2^40";
+            for (int ir = 0; ir < 2; ir++) for (size_t iv = 0; iv + 1 < xs.size(); iv++) for (double fr : {0.0, 0.137}) {
+              double xg = xs[iv] + fr * (xs[iv + 1] - xs[iv]);
+              SQuIDS::expectationValueDBuffer b1(d), b2(d);
+              std::vector<bool> a1(d * (d - 1) / 2 + 1, false), a2(d * (d - 1) / 2 + 1, false);
+              for (size_t k = 0; k < s.ops.size(); k += 3) {
+                SU_vector opv = vec_from_matrix(s.ops[k]);
+                double S = std::max(1.0, s.rhonorm * mnorm1(s.ops[k])) * (1 + std::fabs(dtg) * 40 * std::fabs(xg));
+                double tolv = 512 * EPS * S;
+                double u[6] = {g->GetExpectationValueD(opv, ir, xg), g->GetExpectationValueD(opv, ir, xg, b1), g->GetExpectationValueD(opv, ir, xg, 1e300, a1), g->GetExpectationValueD(opv, ir, xg, b1, 1e300, a1),
+                               fr == 0.0 ? g->GetExpectationValue(opv, ir, (unsigned)iv) : 0.0, fr == 0.0 ? g->GetExpectationValue(opv, ir, (unsigned)iv, 1e300, a1) : 0.0};
+                double w[6] = {g2->GetExpectationValueD(opv, ir, xg), g2->GetExpectationValueD(opv, ir, xg, b2), g2->GetExpectationValueD(opv, ir, xg, 1e300 , a2), g2->GetExpectationValueD(opv, ir, xg, b2, 1e300, a2),
+                               fr == 0.0 ? g2->GetExpectationValue(opv, ir, (unsigned)iv) : 0.0, fr == 0.0 ? g2->GetExpectationValue(opv, ir, (unsigned)iv, 1e300, a2) : 0.0};
+                static const char* nm2[6] = {"GetExpectationValueD", "GetExpectationValueD(buf)", "GetExpectationValueD(avg)", "GetExpectationValueD(buf,avg)", "GetExpectationValue", "GetExpectationValue(avg)"};
+                for (int q2 = 0; q2 < 6; q2++) { ncmp++; if (!(std::fabs(u[q2] - w[q2]) <= tolv)) { mismatch((std::string(nm2[q2]) + un).c_str(), ir, (int)k, "value", std::fabs(u[q2] - w[q2]), tolv); break; } }
+              }
             }
           }
         }
